@@ -204,6 +204,18 @@ func c15HandInputs() []*c15Input {
 			in.Env = []string{"GOFLAGS=-mod=readonly"}
 			return in
 		}(),
+		// two converter interfaces, one of which passes the parser and is refused by the BUILDER (destination is not
+		// a struct), sorting after / before the one that builds: a run that ends in an error writes nothing
+		mk("h-mixed-ifaces", c15HandSetup(okBody+"\n// :convergen\ntype Second interface {\n\tToID(src *A) int\n}\n"), "setup.go"),
+		mk("h-mixed-ifaces-first", c15HandSetup(okBody+"\n// :convergen\ntype AFirst interface {\n\tToID(src *A) int\n}\n"), "setup.go"),
+		// a setup file whose name has two dots, next to the generated output of its sibling setup.go
+		func() *c15Input {
+			in := mk("h-dotted-name", c15HandSetup(okBody), "setup.v2.go")
+			in.Files["hm/setup.v2.go"] = in.Files["hm/setup.go"]
+			delete(in.Files, "hm/setup.go")
+			in.Files["hm/setup.gen.go"] = "// Code generated by github.com/reedom/convergen\n// DO NOT EDIT.\n\npackage sc\n\n// output of a sibling setup.go, generated earlier\nvar c15Sibling = 1\n"
+			return in
+		}(),
 		// crash: hook with fewer than two parameters
 		mk("h-crash-hook", c15HandSetup("type Convergen interface {\n\t// :preprocess hook1\n\tAtoB(src *A) (dst *B)\n\tBtoA(src *B) (dst *A, err error)\n}\n"), "setup.go"),
 	}
